@@ -60,6 +60,16 @@ def _get_composite_state_recur(
                 process_state = node.initial_state(config.get(node.name))
             elif state_type == 'default':
                 process_state = node.default_state()
+            # Ports that the topology leaves out are wired to the store of
+            # the same name (see Store._topology_ports)
+            if isinstance(process_state, dict) and \
+                    isinstance(sub_topology, dict):
+                default_ports = {
+                    port: (port,) for port in process_state
+                    if port not in sub_topology
+                    and not str(port).startswith('_')}
+                if default_ports:
+                    sub_topology = dict(sub_topology, **default_ports)
             # Prevent multiupdates from forming when a single process has
             # multiple ports to the same stores holding a dictionary
             sub_state = inverse_topology(
